@@ -386,7 +386,12 @@ func (r *transport) serveFromCache(
 		}
 	}
 	internal.SetAgeHeader(stored.Data, r.clock, freshness.Age)
-	internal.CacheStatusHit.ApplyTo(stored.Data.Header)
+	status := internal.CacheStatusHit
+	if freshness.Age.Value >= freshness.UsefulLife {
+		// Served while stale (max-stale or only-if-cached allowed it).
+		status = internal.CacheStatusStale
+	}
+	status.ApplyTo(stored.Data.Header)
 	r.logger.LogCacheHit(req, urlKey, internal.MiscFunc(func() internal.Misc {
 		return internal.Misc{
 			Stored:    stored,
